@@ -758,3 +758,36 @@ Lemma zeros_equal : forall r,
   num_eq (VInt r 0) (VFloat (S754_zero false)) = true /\
   num_partial_cmp (VFloat (S754_zero true)) (VInt r 0) = Some Eq.
 Proof. intro r. vm_compute. auto. Qed.
+
+(* ---------------------------------------------------------------- explicit clauses: ±0, NaN *)
+
+(* -0.0, +0.0 and the integer 0 (any tag): every operator answers as for equal operands —
+   == <= >= true, != < > false — in every pairing and in both operand orders *)
+Lemma signed_zero_clause : forall sa sb r op,
+  vm_cmp op (VFloat (S754_zero sa)) (VFloat (S754_zero sb)) = ROk (VBool (spec_test op Eq)) /\
+  vm_cmp op (VFloat (S754_zero sa)) (VInt r 0) = ROk (VBool (spec_test op Eq)) /\
+  vm_cmp op (VInt r 0) (VFloat (S754_zero sa)) = ROk (VBool (spec_test op Eq)) /\
+  num_partial_cmp (VFloat (S754_zero sa)) (VFloat (S754_zero sb)) = Some Eq /\
+  num_eq (VFloat (S754_zero sa)) (VFloat (S754_zero sb)) = true.
+Proof. intros sa sb r op. destruct sa, sb, op; vm_compute; auto. Qed.
+
+Lemma xval_nan_iff : forall b, wf_num b -> (xval b = XNaN <-> b = VFloat S754_nan).
+Proof.
+  intros b W. destruct b as [| | |r z|f| | | |]; try contradiction; cbn.
+  - split; discriminate.
+  - destruct f as [s|s| |s m e]; try (destruct s); cbn; split; congruence.
+Qed.
+
+(* NaN: equal to itself, and after every other number, whichever side it is on *)
+Lemma nan_clause : forall b op, wf_num b -> b <> VFloat S754_nan ->
+  vm_cmp op (VFloat S754_nan) b = ROk (VBool (spec_test op Gt)) /\
+  vm_cmp op b (VFloat S754_nan) = ROk (VBool (spec_test op Lt)) /\
+  vm_cmp op (VFloat S754_nan) (VFloat S754_nan) = ROk (VBool (spec_test op Eq)).
+Proof.
+  intros b op W Hb.
+  assert (Wn : wf_num (VFloat S754_nan)) by reflexivity.
+  rewrite (vm_cmp_exact op _ _ Wn W), (vm_cmp_exact op _ _ W Wn), (vm_cmp_exact op _ _ Wn Wn).
+  assert (Hx : xval b <> XNaN) by (intro E; apply Hb; apply (xval_nan_iff b W); exact E).
+  cbn [xval xval_float].
+  destruct (xval b) eqn:E; try congruence; cbn; auto.
+Qed.
